@@ -18,7 +18,7 @@ Bad(fn, a, s) == [fn |-> fn, a |-> a, s |-> s, good |-> FALSE]
 Sig1 == [NoArgs EXCEPT !.sub = "dh", !.ext = 1]
 Sig0 == [NoArgs EXCEPT !.sub = "ecdh", !.ext = 0]
 
-BadSidCh == <<1, 0, 0, 75, 3, 3>> \o Fill(5, 32) \o <<33>> \o Fill(6, 33) \o <<0, 2, 0, 47, 1, 0>>
+BadSidCh == <<1, 0, 0, 74, 3, 3>> \o Fill(5, 32) \o <<33>> \o Fill(6, 33) \o <<0, 2, 0, 47, 1, 0>>
 Pool == <<
   Ok_("parse_tls_plaintext", NoArgs, EncRecordRaw(22, 771, <<14, 0, 0, 0>> \o CH)),
   Ok_("parse_tls_plaintext", NoArgs, EncRecordRaw(21, 771, <<1, 0>>)),
